@@ -59,7 +59,7 @@ def generate(tier, rng):
             keep = None if rng.random() < 0.4 else rng.sample(gen.LABELS, rng.randint(0, 4))
             cases.append({"op": "morph", "tier": t, "args": {"target": tg, "filter": keep},
                           "scale": gen.pick_scale(rng, decimal_share=0.3)})
-    for _ in range(120 if tier == "quick" else 3000):
+    for _ in range(300 if tier == "quick" else 4000):
         tiers = []
         # names that contain one another (a tier is selected by its name, not by a part of it)
         pool = rng.sample(["words", "word", "w", "ord", "phones", "phone"], 4) if rng.random() < 0.5 else None
@@ -73,7 +73,7 @@ def generate(tier, rng):
                       "scale": list(rng.choice(gen.SCALES_DYADIC))})
     # jitter of one ulp: times that differ from a reference time only in the last bit are within any positive
     # maxDifference and must come out exactly on the reference time (grid of binary64 neighbours, maxDifference 0.05)
-    for _ in range(150 if tier == "quick" else 4000):
+    for _ in range(300 if tier == "quick" else 5000):
         ref = gen.random_itier(rng, name="ref", tmax=30, maxn=4) if rng.random() < 0.6 else gen.random_ptier(rng, name="ref", tmax=30, maxn=4)
         odd = {}
         for e in ref["entries"]:
